@@ -1,71 +1,168 @@
-"""C14/C11/C10/C07/C15: framing code of the compressor (igzip/igzip.c, igzip/bitbuf2.h)."""
+"""C14/C11/C10/C07/C15: framing code of the compressor (igzip/igzip.c, igzip/bitbuf2.h).
+
+Contracts: contracts/igzip_deflate_frame.h (+ assumed contracts contracts/stubs_igzip.h); harness TU
+harness/igzip/deflate_frame.c (real igzip.c and bitbuf2.h spliced); native replay replay/deflate_frame.c.
+Solver seconds in the comments were measured on a loaded 16-core machine (8 helpers sharing it); an idle
+machine is roughly 1.5-2x faster."""
 from runner import H
 
 SRC = ['igzip/igzip.c', 'igzip/bitbuf2.h']
 F = 'igzip/deflate_frame.c'
+RP = 'deflate_frame.c'
 A_CRC = 'ASSUMED crc32_gzip_refl (NASM): recorded uninterpreted function (args recorded, result unconstrained); its value is C04'
 A_ADL = 'ASSUMED isal_adler32 (NASM): recorded uninterpreted function returning a reduced Adler-32 (A<65521); its value is C04'
-A_WMS = 'ASSUMED wmemset (no CBMC model): ghost-position model in the harness TU, s[g]=c for the unconstrained position g<n (C11 7.29.4.2.5)'
+A_WMS = 'ASSUMED wmemset (no CBMC model): ghost-position model in the harness TU, s[g]=c for the unconstrained position g<n (C11 7.29.4.2.5), stored as two little-endian 16-bit halves'
 RFC_SIZES = 'wrapper sizes gzip 10+8, zlib 2+4 defined in the harness TU; harness wrapper_consts proves hufftables_c.c agrees'
+UB_SETBUF = 'pointer-overflow check off: set_buf forms next_out+avail_out-8 before the buffer when avail_out<8 (UB by the letter, never dereferenced or compared on that path)'
+A_KERN = 'ASSUMED isal_deflate_body / isal_deflate_finish (NASM): counters move together and forwards, bit buffer left well-formed, exit states as in the portable twins; compressed bytes not modelled'
+A_INT = 'ASSUMED isal_deflate_int_stateless (compression attempt, NASM kernels behind it): returns COMP_OK or STATELESS_OVERFLOW, output counters move together within the space offered; output bytes not modelled'
+A_HT = 'hufftables well-formedness (HT_WF/HT_FINAL: count < 328, extra bits < 8 and clean, stored header is a final-block header) is a precondition; C18 is where tables are produced'
+A_WBC = 'write_bits used through its proved contract minus the byte-content clause (output bytes of the run encoding not modelled; 8 writable bytes at m_out_buf and "bits fit" checked at every call)'
+D_2G = 'isal_deflate_stateless: avail_in <= 2^31-1 (for larger inputs `2*avail_in` wraps and `1 << bsr(avail_in)` shifts an int by 32: UB by the letter, excluded by precondition, reported)'
 
 HARNESSES = []
 
 
 def add(name, props, enforce, **kw):
     kw.setdefault('also', ['C05', 'C15'])
-    kw.setdefault('timeout', 900)
+    kw.setdefault('timeout', 1200)
     kw.setdefault('expect', ['postcondition'])
     HARNESSES.append(H(name, props, kw.pop('src', F), SRC, enforce=enforce, **kw))
 
 
-# (a) bit writer -- serves C01/C10
-for fn, extra in (('init', {}), ('set_buf', {}), ('write_bits_unsafe', {}), ('write_bits', {}), ('flush_bits', {}),
-                  ('flush', {}), ('write_bits_flush', {}), ('check_space', {}), ('is_full', {}), ('buffer_used', {})):
-    add('bb_' + fn, ['C10'], fn, also=['C01', 'C05', 'C15'], **extra)
+# ---- (a) bit writer (bitbuf2.h) -- serves C10 / C01.  1-3 s each
+for fn in ('init', 'set_buf', 'write_bits_unsafe', 'write_bits', 'flush_bits', 'flush', 'write_bits_flush',
+           'check_space', 'is_full', 'buffer_used'):
+    add('bb_' + fn, ['C10'], fn, also=['C01', 'C05', 'C15'])
 
-# (b) C14
-add('sync_flush', ['C14'], 'sync_flush', also=['C05', 'C10', 'C15'], replay=('deflate_frame.c', 'sync_flush'))
-add('flush_write_buffer', ['C14'], 'flush_write_buffer', also=['C05', 'C10', 'C15'],
-    replay=('deflate_frame.c', 'flush_write_buffer'))
-# (c) C11
+# ---- (b) C14 flush points.  sync_flush also carries the C10 progress clause (>= 8 bytes of space => marker out)
+add('sync_flush', ['C14', 'C10'], 'sync_flush', also=['C05', 'C15'], replay=(RP, 'sync_flush'))                    # 5 s
+add('flush_write_buffer', ['C14'], 'flush_write_buffer', also=['C05', 'C10', 'C15'], replay=(RP, 'flush_write_buffer'))  # 4 s
+# reset_match_history: the only reachable loop (`for (rep_bits = 16; rep_bits < 32; rep_bits *= 2)`) has a constant
+# trip count of 1; it is unrolled and the unwinding assertion proves the unrolling complete (kind stays 'proof').
+for v in ('lvl0', 'lvln'):                                                                                         # 47 s / 33 s
+    add('reset_match_history_' + v, ['C14'], 'reset_match_history', entry='h_reset_match_history',
+        defines=(['DF_LVLN'] if v == 'lvln' else []), also=['C05', 'C15'], unwind=3, trusted=[A_WMS], solver='cadical',
+        bounds='constant-trip loop (1 iteration) fully unrolled; unwinding assertion proved',
+        expect=['postcondition', 'assigns'])
+
+# ---- (c) C11 trailer and checksum selection
 # set_buf(next_out, avail_out) is called before the `avail_out < 8` tests: for avail_out < 8 the C expression
-# buf + len - 8 points before the buffer (UB by the letter, C11 6.5.6p8; the value is never dereferenced and
-# never compared on that path).  CBMC flags it (set_buf.pointer_arithmetic); the all-sizes harness therefore
-# runs without --pointer-overflow-check (dereferences stay checked), the _ge8 variant keeps every check.
-UB_SETBUF = 'pointer-overflow check off: set_buf forms next_out+avail_out-8 before the buffer when avail_out<8 (never dereferenced)'
+# buf + len - 8 points before the buffer (C11 6.5.6p8).  CBMC flags it (set_buf.pointer_arithmetic); the all-sizes
+# harness therefore runs without --pointer-overflow-check (dereferences stay checked), _ge8 keeps every check.
 add('write_trailer', ['C11'], 'write_trailer', also=['C05', 'C07', 'C10', 'C15'], trusted=[RFC_SIZES, UB_SETBUF],
-    checks_off=['pointer-overflow'], replay=('deflate_frame.c', 'write_trailer'))
+    checks_off=['pointer-overflow'], replay=(RP, 'write_trailer'))                                                  # 8 s
 add('write_trailer_ge8', ['C11'], 'write_trailer', entry='h_write_trailer', defines=['DF_TRAILER_GE8'],
-    also=['C05', 'C07', 'C10', 'C15'], trusted=[RFC_SIZES], replay=('deflate_frame.c', 'write_trailer'))
-add('update_checksum', ['C11'], 'update_checksum', replace=['crc32_gzip_refl', 'isal_adler32'],
-    trusted=[A_CRC, A_ADL])
-add('adler32_bam1', ['C11'], 'isal_adler32_bam1', replace=['isal_adler32'], trusted=[A_ADL])
-# (d) C10
-add('check_level_req', ['C10'], 'check_level_req', replay=('deflate_frame.c', 'check_level_req'))
-add('write_type0_header', ['C10'], 'write_type0_header', also=['C05', 'C07', 'C15'])
-add('write_stream_header_stateless', ['C10'], 'write_stream_header_stateless', also=['C05', 'C15', 'C17', 'C19'])
-add('write_stream_header', ['C07', 'C10'], 'write_stream_header', also=['C05', 'C15', 'C17', 'C19'])
-add('set_dist_mask', ['C10'], 'set_dist_mask', also=['C05', 'C15', 'C17'])
-add('set_hash_mask', ['C10'], 'set_hash_mask')
-# (f) C15
+    also=['C05', 'C07', 'C10', 'C15'], trusted=[RFC_SIZES], replay=(RP, 'write_trailer'))                           # 8 s
+add('update_checksum', ['C11'], 'update_checksum', replace=['crc32_gzip_refl', 'isal_adler32'], trusted=[A_CRC, A_ADL])  # 4 s
+add('adler32_bam1', ['C11'], 'isal_adler32_bam1', replace=['isal_adler32'], trusted=[A_ADL])                        # 2 s
+# isal_deflate_pass: call-site obligations of the helpers (write_header's armed-flag precondition, ...) and "checksum
+# over exactly the consumed input".  Quick tier: the contract obligations only; thorough: every obligation.
+PASS_REPLACE = ['write_header', 'isal_deflate_body', 'isal_deflate_finish', 'sync_flush', 'flush_write_buffer',
+                'write_trailer', 'crc32_gzip_refl', 'isal_adler32']
+add('deflate_pass', ['C11', 'C07'], 'isal_deflate_pass', replace=PASS_REPLACE, also=['C01', 'C10'],
+    trusted=[A_KERN, A_CRC, A_ADL, RFC_SIZES], solver='cadical', object_bits=8,
+    properties=[r'isal_deflate_pass\.postcondition', r'\.precondition'], min_obligations=20,
+    expect=['postcondition', 'precondition'], note='contract obligations only (pre/postconditions); all obligations: deflate_pass_full')  # 85 s
+add('deflate_pass_full', ['C11', 'C07'], 'isal_deflate_pass', entry='h_deflate_pass', replace=PASS_REPLACE,
+    also=['C01', 'C05', 'C10', 'C15'], trusted=[A_KERN, A_CRC, A_ADL, RFC_SIZES], solver='cadical', tier='thorough',
+    timeout=3600, expect=['postcondition', 'precondition'])                                                          # 205 s
+# write_constant_compressed_stateless: consumed run == checksummed run; loops <= 11 iterations, unrolled
+CC = dict(defines=['DF_WB_COARSE'], replace=['write_bits', 'crc32_gzip_refl', 'isal_adler32'], unwind=25, solver='cadical',
+          bounds='loops of at most 11 iterations (rep_extra < 258) fully unrolled; unwinding assertions proved',
+          trusted=[A_WBC, A_CRC, A_ADL], expect=['postcondition', 'precondition'])
+add('write_constant_compressed', ['C11', 'C10'], 'write_constant_compressed_stateless', object_bits=11,
+    properties=[r'write_constant_compressed_stateless\.postcondition', r'\.precondition', r'\.unwind'], min_obligations=15,
+    note='contract obligations only; all obligations: write_constant_compressed_full', **CC)                         # 100 s
+add('write_constant_compressed_full', ['C11', 'C10'], 'write_constant_compressed_stateless',
+    entry='h_write_constant_compressed', tier='thorough', timeout=3600, object_bits=11, **CC)                                       # 250 s
+HARNESSES.append(H('wrapper_consts', ['C11', 'C10'], 'igzip/deflate_consts.c', ['igzip/hufftables_c.c'], timeout=600,
+                   expect=['assertion'], min_obligations=6, also=['C19'], replay=(RP, 'wrapper_consts')))           # 0.3 s
+
+# ---- (d) C10 output-space contract, stored path, parameter checks
+add('check_level_req', ['C10'], 'check_level_req', replay=(RP, 'check_level_req'))                                  # 6 s
+add('write_type0_header', ['C10'], 'write_type0_header', also=['C05', 'C07', 'C15'], replay=(RP, 'write_type0_header'))  # 8 s
+add('write_stream_header_stateless', ['C10'], 'write_stream_header_stateless', also=['C05', 'C15', 'C17', 'C19'])    # 4 s
+add('write_stream_header', ['C07', 'C10'], 'write_stream_header', also=['C05', 'C15', 'C17', 'C19'])                # 4 s
+add('set_dist_mask', ['C10'], 'set_dist_mask', also=['C05', 'C15', 'C17'])                                          # 3 s
+add('set_hash_mask', ['C10'], 'set_hash_mask')                                                                      # 3 s
+add('set_hufftables', ['C10'], 'isal_deflate_set_hufftables', also=['C05', 'C15', 'C18'])                           # 3 s
+# isal_deflate_stateless: the bound formula, capping, rejection, overflow verdict (every path outside the stored
+# fallback / history reset; the helpers of the excluded paths carry requires(false): unreachability is proved)
+add('deflate_stateless_a', ['C10'], 'isal_deflate_stateless', entry='h_deflate_stateless', defines=['DF_SL_A'],
+    replace=['isal_deflate_int_stateless', 'write_stored_block', 'write_trailer', 'write_stream_header_stateless',
+             'update_checksum', 'reset_match_history'],
+    also=['C05', 'C15'], solver='cadical', trusted=[A_INT, D_2G], expect=['postcondition', 'precondition'],
+    note='paths outside the stored fallback and the FULL_FLUSH history reset')                                      # 31 s
+# block header of the one-shot level-0 path; write_bits call sites carry the "bits fit" assertion (E_write_bits)
+add('deflate_header_stateless', ['C10'], 'write_deflate_header_stateless', also=['C01', 'C05', 'C15'], trusted=[A_HT],
+    solver='cadical', expect=['postcondition', 'assertion'])                                                        # 24 s
+for bc in range(0, 8):                                                                                              # 20-90 s each
+    add('deflate_header_unaligned_bc%d' % bc, ['C10'], 'write_deflate_header_unaligned_stateless',
+        entry='h_deflate_header_unaligned_stateless', defines=['DH_BC=%d' % bc], kind='bounded', unwind=25,
+        unwindset=['write_deflate_header_unaligned_stateless_wrapped_for_contract_checking.0:5'],
+        bounds='deflate_hdr_count <= 31 (three iterations of the 8-byte loop; the code allows 40); one harness per pending-bit count',
+        tier=('quick' if bc in (0, 3, 7) else 'thorough'),
+        also=['C01', 'C05', 'C15'], trusted=[A_HT], solver='cadical', expect=['postcondition', 'assertion'])
+
+# ---- (e) C07 resumable helpers (write_stream_header above, write_trailer above)
+add('write_header', ['C07'], 'write_header', also=['C01', 'C05', 'C10', 'C15'])                                     # 47-140 s
+
+# ---- (f) C15 init / reset
 for n, fn in (('deflate_init', 'isal_deflate_init'), ('deflate_reset', 'isal_deflate_reset'),
               ('deflate_stateless_init', 'isal_deflate_stateless_init'), ('gzip_header_init', 'isal_gzip_header_init'),
               ('zlib_header_init', 'isal_zlib_header_init')):
-    add(n, ['C15'], fn, also=['C05'], expect=['postcondition', 'assigns'])
-HARNESSES.append(H('reset_eq_init', ['C15'], F, SRC, timeout=900, expect=['assertion'], min_obligations=19))
-# reset_match_history: the only reachable loop (`for (rep_bits = 16; rep_bits < 32; rep_bits *= 2)`) has a
-# constant trip count of 1; it is unrolled and the unwinding assertion proves the unrolling complete.
-for v in ('LVL0', 'LVLN'):
-    add('reset_match_history_' + v.lower(), ['C14'], 'reset_match_history', entry='h_reset_match_history',
-        defines=(['DF_LVLN'] if v == 'LVLN' else []), also=['C05', 'C15'], unwind=3, trusted=[A_WMS], solver='cadical',
-        bounds='constant-trip loop (1 iteration) fully unrolled; unwinding assertion proved',
-        expect=['postcondition', 'assigns'])
+    add(n, ['C15'], fn, also=['C05'], expect=['postcondition', 'assigns'])                                          # 1-4 s
+HARNESSES.append(H('reset_eq_init', ['C15'], F, SRC, timeout=900, expect=['assertion'], min_obligations=19))       # 4 s
+
+# ---- write_stored_block: loop contract on the per-65535-byte block loop (unbounded number of blocks, all sizes).
+# The dfcc loop instrumentation on this 82 KiB context is expensive (about an hour each, 3-4 GB): thorough tier only;
+# in the quick tier the stored path is represented by write_type0_header (exact layout) and the native replay battery.
 SB_EXPECT = ['postcondition', 'loop_invariant_step', 'loop_decreases', 'assertion']
-add('write_stored_block', ['C10', 'C07'], 'write_stored_block', also=['C05', 'C15'], solver='cadical', timeout=1800,
-    expect=SB_EXPECT)
+add('write_stored_block', ['C10', 'C07'], 'write_stored_block', also=['C05', 'C15'], solver='cadical', timeout=30000,
+    tier='thorough', object_bits=8, expect=SB_EXPECT, replay=(RP, 'write_stored_block'))  # 3700 s
+# byte-level statement (ghost output position, header || data || header || data ...)
+add('write_stored_block_data', ['C10', 'C07'], 'write_stored_block', entry='h_write_stored_block', defines=['DF_SB_DATA'],
+    also=['C01', 'C05', 'C15'], solver='cadical', timeout=30000, tier='thorough', object_bits=8, expect=SB_EXPECT,
+    replay=(RP, 'write_stored_block'))  # 4985 s
+# FULL_FLUSH: completing the block clears the match history (reset_match_history body inlined, wmemset model)
 for v in ('lvl0', 'lvln'):
     add('write_stored_block_ff_' + v, ['C14'], 'write_stored_block', entry='h_write_stored_block',
         defines=(['DF_SB_FF', 'DF_LVLN'] if v == 'lvln' else ['DF_SB_FF']), trusted=[A_WMS],
-        also=['C05', 'C07', 'C10', 'C15'], solver='cadical', timeout=3600, tier='thorough', expect=SB_EXPECT)
+        also=['C05', 'C07', 'C10', 'C15'], solver='cadical', timeout=30000, tier='thorough', object_bits=8,
+        expect=SB_EXPECT, replay=(RP, 'write_stored_block'))  # 4686 s / 4354 s
 
-PROP_TEXT = {}
+PROP_TEXT = {
+    'C14': {
+        'assumptions': [A_WMS, 'bit buffer well-formed at entry (fewer than 8 pending bits, nothing above them)',
+                        'reset_match_history: hash_mask is 2^k-1 within the table of the level (set_hash_mask / bsr clamp)'],
+        'not_decided': ['"no later match refers to data before a completed full flush" beyond the has_hist / hash-head reset contracts',
+                        'one-shot FULL_FLUSH through the compressed path (kernels are NASM)',
+                        'FULL_FLUSH completion inside write_stored_block for level 3 (its "buffers empty" test reads a match queue kept in level_buf); levels 0-2 are decided in the thorough tier'],
+    },
+    'C11': {
+        'assumptions': [A_CRC, A_ADL, A_KERN, RFC_SIZES, UB_SETBUF,
+                        'running Adler value stored as B<<16 | (A-1) with A-1 < 65521'],
+        'not_decided': ['checksum coverage inside isal_deflate_icf_pass (levels 1-3) and in the stored fallback of isal_deflate_stateless',
+                        'pending wrapper header (gzip_flag GZIP/ZLIB with has_wrap_hdr == 0) in isal_deflate_pass / write_header',
+                        'values of CRC-32 / Adler-32 themselves (C04)'],
+    },
+    'C10': {
+        'assumptions': [A_INT, A_HT, A_WBC, D_2G,
+                        'undefined shift `1 << bsr(avail_in)` for avail_in >= 2^31 in isal_deflate_stateless / isal_deflate (UB by the letter, excluded by precondition)',
+                        'documentation mismatch noted, not asserted: an undersized level_buf yields ISAL_INVALID_LEVEL, igzip_lib.h says ISAL_INVALID_LEVEL_BUF'],
+        'not_decided': ['stored fallback of isal_deflate_stateless end to end (produces exactly the bound): only its parts (type-0 header, stored-block loop, trailer) are under contract',
+                        'write_deflate_header_unaligned_stateless beyond deflate_hdr_count <= 31 (bounded)',
+                        'detect_repeated_char_length, isal_deflate_int_stateless bodies; streaming termination over call histories',
+                        'isal_deflate_int tmp_out_buff staging'],
+    },
+    'C07': {
+        'assumptions': ['no wrapper header pending in write_header / isal_deflate_pass (state.count is shared with write_stream_header)'],
+        'not_decided': ['induction over call histories; isal_deflate_int staging through tmp_out_buff; isal_deflate internal buffering'],
+    },
+    'C15': {
+        'assumptions': ['frames name fields of the caller-owned isal_zstream only; library globals are outside every frame'],
+        'not_decided': ['dist_mask / hash_mask are not set by init/reset: shown only that both leave has_hist == IGZIP_NO_HIST, which makes isal_deflate recompute them',
+                        'thread interleavings, dispatcher first-call races'],
+    },
+}
